@@ -550,8 +550,11 @@ def loop_transcript_events(P, g, gev, site, mapping):
     # body shape: append_message(<label element>, to_bytes(<point element>))
     s = inloop[0][1]
     pay = strip_sites(s.args[2])
-    tb = [x for x in subterms(pay) if x.op == "call" and B.cname(x) == "GroupEncoding::to_bytes"]
-    if len(tb) != 1 or not any(x.op == "call" and B.cname(x) == "Iterator::next" for x in subterms(tb[0])):
+    top = B.peel(pay)
+    while top.op == "call" and B.cname(top) in ("AsRef::as_ref", "Deref::deref", "GenericArray::<T, N>::as_slice") and len(top.a[1]) == 1:
+        top = B.peel(top.a[1][0])
+    # the payload is to_bytes(<the loop's point element>)
+    if not (top.op == "call" and B.cname(top) == "GroupEncoding::to_bytes" and any(x.op == "call" and B.cname(x) == "Iterator::next" for x in subterms(top.a[1][0]))):
         return None
     out = [("new", _lit(B.nf(gev, new[0].args[0])), None)]
     order = {b: i for i, b in enumerate(cfg.rpo())} if hasattr(cfg, "rpo") else {}
@@ -623,7 +626,8 @@ def payload_role(segs):
                 return x.a[1]
             if x.op == "call" and B.cname(x) == "Group::generator":
                 return "G"
-            if x.op == "call" and B.cname(x).endswith("unwrap_or_else"):
+            if R.subject_matches(x, ("opt-param", "generator")):
+                # the defaulted Option parameter: `generator.unwrap_or_else(..)` or the merge of `match generator {..}`
                 return "generator"
             return show(x, 3)
         if t.op == "const":
